@@ -67,6 +67,8 @@ def tv(q):
 
 def observer(solver, tok, f_after):
     ctx = CTX
+    if not probes.take("step"):
+        return
     cls, info = classify(solver, tok)
     if cls is None:
         ctx.skip("step:" + info)
